@@ -301,7 +301,11 @@ func (r *inFlightRequest) onFrameReceived(f *frame.Frame) error {
 		}
 		return nil
 	case <-r.ctx.Done():
-		return fmt.Errorf("%v: request closed", r)
+		// the request, or the connection it belongs to, is being closed: make sure the request is completed (it may
+		// already have been removed from the in-flight table, in which case nothing else would complete it)
+		err := fmt.Errorf("%v: request closed", r)
+		r.close(err)
+		return err
 	default:
 		err := fmt.Errorf("%v: too many pending incoming frames: %d", r, len(r.incoming))
 		r.close(err)
